@@ -780,18 +780,40 @@ func TestVP_C07_DecompressLimit(t *testing.T) {
 		}
 		var req Request
 		var resp Response
+		// a stored body may carry a Content-Encoding label the helper has no decoder for (or spells one it has
+		// differently): whatever the helper makes of it, it "never returns more than L bytes"
+		label := ""
+		if codec == "identity" && rapid.Bool().Draw(t, "labelled") {
+			label = rapid.SampledFrom([]string{"identity", "IDENTITY", "Identity", "x-gzip", "compress", "none", "gzip, identity", "identity, gzip",
+				"GZIP", "Gzip", "x-deflate", "chunked", "*", "utf-8", "binary", "7bit"}).Draw(t, "label")
+		}
 		if onResp {
 			resp.SetBody(packed)
 			if codec != "identity" {
 				resp.Header.Set("Content-Encoding", codec)
+			} else if label != "" {
+				resp.Header.Set("Content-Encoding", label)
 			}
 		} else {
 			req.SetBody(packed)
 			if codec != "identity" {
 				req.Header.Set("Content-Encoding", codec)
+			} else if label != "" {
+				req.Header.Set("Content-Encoding", label)
 			}
 		}
 		d := vpC07DecompFor(codec, onResp, generic)
+		if label != "" {
+			d.name = strings.Replace(d.name, "(identity)", "(stored body labelled "+label+")", 1)
+			got, err := d.call(&req, &resp, L)
+			vpCase("decompress/"+strings.Replace(d.name, label, "*", 1)+"/"+rel, size >= L-2 && size <= L+2, fmt.Sprintf("%s|%d|%d", d.name, L, size), func() string {
+				return fmt.Sprintf("%s L=%d body=%d -> len=%d err=%v", d.name, L, size, len(got), err)
+			})
+			if len(got) > L {
+				t.Fatalf("%s limit=%d body size=%d returned %d bytes > limit (err=%v)", d.name, L, size, len(got), err)
+			}
+			return
+		}
 		if codec == "br" && vpC07BrDirty && vpKnownOpen(vpC07KeyBrotli) {
 			// known finding: do not let this decode pick up a reader that was abandoned mid-stream
 			vpExclude(vpC07KeyBrotli)
